@@ -119,6 +119,7 @@ type Machine struct {
 	Conc    map[string]uint64 // concrete mode: values for nondet inputs (nil = symbolic mode)
 	Env     map[string]string // os.Getenv
 	InitAllow func(path string) bool
+	InitExtra []string // packages whose initialiser is run explicitly (their importers may be blocked)
 	Tainted map[string]string // packages whose initialiser could not be completed
 	TaintOK map[string]bool   // tainted packages whose zero-valued globals may be read anyway (stated in the spec)
 	IntTokens bool            // fmt %d of a symbolic integer yields an opaque token instead of forking
